@@ -163,3 +163,80 @@ Definition check_conf (fl : flags) (cf : config) (P : gstate -> bool) (fuel : na
   | Some st => closed fl cf P st
   | None => false
   end.
+
+(* ---------------------------------------------------------------- the configuration universes of the theorems *)
+Definition u4 : content := [120; 52; 120; 120].
+Definition BIG : Z := 1048576.
+
+Definition ops1 (u : content) : list op := [OGet 0; OUpd 0 u; OUnl 0].
+Definition ops2 (u : content) : list op := [OGet 0; OGet 1; OUpd 0 u; OUpd 1 u; OUnl 0; OUnl 1].
+
+(* 2 client threads x 1 operation x files {0,1}: every ordered pair of operations, for four environments:
+   file 0 on disk / files 0 and 1 on disk / both on disk with max_memory 6 (not both fit: eviction) / nothing on disk *)
+Definition envs21 : list (list (file * content) * Z * content * content) :=
+  [ ([(0, cA)], BIG, u1, u2); ([(0, cA); (1, cB)], BIG, u1, u2); ([(0, cA); (1, cB)], 6, u1, u3); ([], BIG, u1, u2) ].
+Definition U21 : list config :=
+  flat_map (fun e => match e with (d, mx, p, q) =>
+     flat_map (fun a => map (fun b => mkCfg mx d [[a]; [b]]) (ops2 q)) (ops2 p) end) envs21.
+
+(* 2 client threads x 2 operations on file 0 *)
+Definition progs2 (u u' : content) : list (list op) :=
+  flat_map (fun a => map (fun b => [a; b]) (ops1 u')) (ops1 u).
+Definition U22 : list config :=
+  flat_map (fun p => map (fun q => mkCfg BIG [(0, cA)] [p; q]) (progs2 u2 u4)) (progs2 u1 u3).
+
+(* 3 client threads x 1 operation on file 0 *)
+Definition U31 : list config :=
+  flat_map (fun a => flat_map (fun b => map (fun c => mkCfg BIG [(0, cA)] [[a]; [b]; [c]]) (ops1 u3)) (ops1 u2)) (ops1 u1).
+
+(* the configuration class of the known defect: two different threads, same file, one may have an entry in
+   flight (get or update) while the other unloads it (unload_file, or update_file against a get) *)
+Definition op_file (o : op) : file := match o with OGet f | OUpd f _ | OUnl f => f end.
+Definition clash (a b : op) : bool :=
+  (op_file a =? op_file b) &&
+  match a, b with
+  | OGet _, OUpd _ _ | OUpd _ _, OGet _ => true
+  | OGet _, OUnl _ | OUnl _, OGet _ => true
+  | OUpd _ _, OUnl _ | OUnl _, OUpd _ _ => true
+  | _, _ => false
+  end.
+Fixpoint racy_progs (ps : list (list op)) : bool :=
+  match ps with
+  | [] => false
+  | p :: r => existsb (fun q => existsb (fun a => existsb (clash a) q) p) r || racy_progs r
+  end.
+Definition racy (cf : config) : bool := racy_progs (cfg_progs cf).
+
+Definition conf_pred (fl : flags) (cf : config) : gstate -> bool :=
+  if racy cf then state_ok fl cf else state_ok_strict fl cf.
+
+Definition check_universe (fl : flags) (U : list config) (fuel : nat) : bool :=
+  forallb (fun cf => check_conf fl cf (conf_pred fl cf) fuel) U.
+
+(* ---- the statements *)
+(* every run is finite (each step decreases `weight`), and when no thread can move every call has
+   returned, every task has finished, the history is linearizable with the disk as final register
+   contents, and disk / cached contents / accounting agree *)
+Definition C18_full_statement (fl : flags) (cf : config) : Prop :=
+  forall s, reach fl cf s ->
+    (forall t s', step fl (cfg_max cf) s t = Some s' -> (weight s' < weight s)%nat) /\
+    (enabled fl (cfg_max cf) s = [] ->
+       quiescent s = true /\
+       lin_spec (cfg_disk cf) (rev (g_hist s)) (disk (g_core s)) /\ final_agree s = true).
+
+(* the same, except that nothing is claimed about the outcome of runs in which a client unloaded an in-flight entry *)
+Definition C18_outside_K_statement (fl : flags) (cf : config) : Prop :=
+  forall s, reach fl cf s ->
+    (forall t s', step fl (cfg_max cf) s t = Some s' -> (weight s' < weight s)%nat) /\
+    (enabled fl (cfg_max cf) s = [] ->
+       quiescent s = true /\
+       (g_k s = 0 -> lin_spec (cfg_disk cf) (rev (g_hist s)) (disk (g_core s)) /\ final_agree s = true)).
+
+(* chunks of the universes (so that the reflective checks build in parallel) *)
+Definition U22a := firstn 27 U22.
+Definition U22b := firstn 27 (skipn 27 U22).
+Definition U22c := skipn 54 U22.
+Definition U31a := firstn 9 U31.
+Definition U31b := firstn 9 (skipn 9 U31).
+Definition U31c := skipn 18 U31.
+Definition FUEL : nat := Z.to_nat 50000.
